@@ -255,9 +255,14 @@ def one_run(case, k):
     uid = itertools.count()
     els = [build_el(s, uid) for s in case["stages"]]
     st = SrcState()
-    src = source(case["n"], st, case.get("pairs", False))
-    seq = lena.core.Sequence(*els)
-    flow = seq.run(src)
+    if case.get("via") == "source":
+        # Source(first, *els)() is Sequence(*els).run(first())
+        seq = lena.core.Source(lambda: source(case["n"], st, case.get("pairs", False)), *els)
+        flow = seq()
+    else:
+        src = source(case["n"], st, case.get("pairs", False))
+        seq = lena.core.Sequence(*els)
+        flow = seq.run(src)
     built = st.clock
     res = []
     end = "stopped"
@@ -671,6 +676,8 @@ def describe(case):
             return f"Split([{','.join(bs)}],bufsize={st['bufsize']},copy_buf={st['copy']})"
         return str(st)
     src = "infinite input" if case["n"] is None else f"input of {case['n']} values"
+    if case.get("via") == "source":
+        return f"Source({', '.join(['<input>'] + [d(s) for s in case['stages']])})() with an {src}"
     return f"Sequence({', '.join(d(s) for s in case['stages'])}) over an {src}"
 
 
@@ -777,13 +784,15 @@ def g_stage(rng, pairs, names, infinite):
     if r < 0.87:
         return g_runif(rng, pairs, 1)
     st = g_split(rng, pairs, names, infinite)
-    if not st["copy"] and any(b["k"] == "fc" for b in st["branches"]):
-        st["copy"] = True           # Count.compute writes into the last filled value's context: aliasing is C04's subject
+    if not st["copy"] and (pairs or any(b["k"] == "fc" for b in st["branches"])):
+        # without copies the branches share the context dictionaries of the values, and Count writes into the
+        # context of the last value it saw: aliasing is C04's subject, not this property's
+        st["copy"] = True
     return st
 
 
-def mk_case(stages, n, pairs=False, K=None, ks=None):
-    return {"stages": stages, "n": n, "pairs": pairs, "K": K, "ks": ks or []}
+def mk_case(stages, n, pairs=False, K=None, ks=None, via="sequence"):
+    return {"stages": stages, "n": n, "pairs": pairs, "K": K, "ks": ks or [], "via": via}
 
 
 def random_case(rng, tier):
@@ -791,11 +800,12 @@ def random_case(rng, tier):
     infinite = rng.random() < 0.25
     names = itertools.count()
     stages = [g_stage(rng, pairs, names, infinite) for _ in range(rng.choice([0, 1, 1, 2, 2, 3, 3, 4]))]
+    via = "source" if rng.random() < 0.25 else "sequence"
     if infinite:
-        return mk_case(stages, None, pairs, K=rng.randint(0, 9), ks=[rng.randint(0, 6)])
+        return mk_case(stages, None, pairs, K=rng.randint(0, 9), ks=[rng.randint(0, 6)], via=via)
     n = rng.choice([0, 1, 2, 3, 4, 5, 6, 7, 8, 10, 12, 25 if tier == "quick" else 40])
     ks = sorted(set([0, rng.randint(0, n + 1), rng.randint(0, n + 1)])) if tier == "quick" else list(range(0, n + 2))
-    return mk_case(stages, n, pairs, K=None, ks=ks)
+    return mk_case(stages, n, pairs, K=None, ks=ks, via=via)
 
 
 PALETTE = [
@@ -835,7 +845,8 @@ def fixed_cases(tier):
     twice = {"k": "seq", "stages": [{"t": "map", "f": ["mul", 2], "impl": "callable"}]}
     for brs in ([fc], [fc, twice], [twice, fc]):
         sp = {"t": "split", "bufsize": 4, "copy": True, "branches": brs}
-        cases.append(mk_case([sp, {"t": "slice", "start": None, "stop": 1, "step": None, "form": 1}], None, K=3, ks=[0, 1]))
+        cases.append(mk_case([sp, {"t": "slice", "start": None, "stop": 1, "step": None, "form": 1}], None, K=3, ks=[0, 1],
+                             via="source"))
         cases.append(mk_case([sp], None, K=7, ks=[1, 5]))
         cases.append(mk_case([sp], 11, ks=[0, 1, 2, 6]))
     cases.append(mk_case([{"t": "slice", "start": None, "stop": 5, "step": None, "form": 1}], None, K=8, ks=[0, 3, 5, 6]))
@@ -865,7 +876,7 @@ def gen_cases(ctx):
             for n in ((0, 1, 3, 7) if tier == "quick" else (0, 1, 2, 3, 5, 7, 9)):
                 cases.append(mk_case([s1, s2], n, ks=[0, 1, 2] if tier == "quick" else list(range(n + 2))))
             cases.append(mk_case([s1, s2], None, K=4, ks=[0, 2]))
-    nrand = 1500 if tier == "quick" else 40000
+    nrand = 4000 if tier == "quick" else 60000
     for _ in range(nrand):
         cases.append(random_case(rng, tier))
     return cases
@@ -881,7 +892,7 @@ def nontrivial(case, res):
 
 def classify(case, res):
     labels = ["len=%d" % len(case["stages"]), "input=" + ("infinite" if case["n"] is None else "finite"),
-              "end=" + res.get("end", "?")]
+              "end=" + res.get("end", "?"), "via=" + case.get("via", "sequence")]
     for st in case["stages"]:
         t = st["t"]
         if t == "map":
@@ -932,7 +943,7 @@ RULE = ("quick and thorough: fixed cases (documented examples; negative Slice ov
         "{None,-3..3}, step in {None,1,2} over short flows, every ordered pair of a 16-element palette of streaming "
         "elements over finite and infinite inputs, and seeded random pipelines (0..4 elements: callables, Variable, "
         "Print, Context, UpdateContext, MakeFilename, Filter, Slice, Count, RunIf, Split with sequence and "
-        "fill/compute branches; 1500 quick / 40000 thorough), each with a long run and runs for consumer stop points "
+        "fill/compute branches; 4000 quick / 60000 thorough; a quarter of them run as Source(input, *elements)()), each with a long run and runs for consumer stop points "
         "(quick: 3 per case, thorough: every k = 0..n+1). Non-trivial: at least one element and one result.")
 TRUSTED = [
     "Lean 4.33.0 kernel; axioms limited to propext, Classical.choice, Quot.sound (audited by #print axioms on every run)",
